@@ -18,7 +18,8 @@ MANIFEST = {
     "text": "Complete static check of all 32 LE/BE impls and 4 module functions: the serialized value is the [u8; size_of] "
             "array whose k-th element is the k-th little-/big-endian byte of the integer (bit-exact term), handed to serde's "
             "array impl; deserialisation applies the matching from_*_bytes. With C02 (tuple -> nothing, u8 -> raw byte) the wire "
-            "bytes are exactly the integer's bytes in the chosen order for all values. Obligations are enumerated from the "
+            "bytes are exactly the integer's bytes in the chosen order for all values; those C02/C03 cells (tuple, u8, element) and the storage "
+            "summaries are re-decided under this property (rules U, ST). Obligations are enumerated from the "
             "macro instances present in MIR, so the level is proof relative to the trusted base.",
     "note": "Trusted: std to/from_{le,be}_bytes semantics (modelled), serde's [u8; N] Serialize/Deserialize = tuple of N u8.",
     "technique": "static analysis: semantic MIR summaries of all macro instances (byte-order functions modelled byte-exactly) + sibling cross-check",
